@@ -20,6 +20,12 @@ def main():
     patch = os.path.abspath(patch); demo = os.path.abspath(demo)
     meta = json.load(open(meta_in)) if os.path.exists(meta_in) else {}
     target_prop = meta.get("property", sid.split("-")[0])
+    import re as _re
+    if not _re.fullmatch(r"C\d\d", str(target_prop)):
+        bp = meta.get("breaks_property") or meta.get("main_property")
+        if isinstance(bp, list):
+            bp = bp[0] if bp else None
+        target_prop = bp if bp and _re.fullmatch(r"C\d\d", str(bp)) else sid.split("-")[0]
     if not props:
         props = [target_prop]
     demo_name = os.path.splitext(os.path.basename(demo))[0]
